@@ -394,7 +394,7 @@ def serialize_to_json(elements: Iterable[Any],
             elif isinstance(obj, (AbstractBinary, AbstractDateTime, AnyURI, UntypedAtomic)):
                 return str(obj)
             elif isinstance(obj, Decimal):
-                return float(Decimal(obj).quantize(Decimal("0.01"), ROUND_UP))
+                return float(obj)
             elif isinstance(obj, list):
                 return [v for v in obj]
             else:
